@@ -369,7 +369,7 @@ int main(int argc, char** argv) {
                 bool ok = c->inst->parse_pretend_valid_expr(a.c_str());
                 emit_capture();
                 std::string m;
-                for (auto& kv : c->inst->pretend_valid_map) { if (!m.empty()) m += ","; m += hx(kv.first) + ":" + hx(kv.second); }
+                for (auto& kv : c->inst->pretend_valid_map) for (auto& pk : kv.second) { if (!m.empty()) m += ","; m += hx(kv.first) + ":" + hx(pk); }
                 fprintf(EV, "PV %d %s\n", ok ? 1 : 0, m.empty() ? "." : m.c_str()); fflush(EV);
             }
             else if (cmd == "XD") {
